@@ -69,6 +69,43 @@ impl SupplyBound for ViaDefault {
     }
 }
 
+/// An arrival bound that forwards `number_arrivals` only, so that the trait's DEFAULT
+/// `steps_iter` (brute force) runs.
+pub struct ArrViaDefault(pub Rc<dyn ArrivalBound>);
+
+impl ArrivalBound for ArrViaDefault {
+    fn number_arrivals(&self, delta: Duration) -> usize {
+        self.0.number_arrivals(delta)
+    }
+    fn clone_with_jitter(&self, jitter: Duration) -> Box<dyn ArrivalBound> {
+        self.0.clone_with_jitter(jitter)
+    }
+}
+
+/// A cost model that forwards `job_cost_iter` only: DEFAULT `cost_of_jobs` and `least_wcet`.
+pub struct CostViaDefault(pub Rc<dyn JobCostModel>);
+
+impl JobCostModel for CostViaDefault {
+    fn job_cost_iter<'a>(&'a self) -> Box<dyn Iterator<Item = Service> + 'a> {
+        self.0.job_cost_iter()
+    }
+}
+
+/// A request bound that does not override `service_needed`: DEFAULT = sum of `job_cost_iter`.
+pub struct RbViaDefault(pub Rc<dyn RequestBound>);
+
+impl RequestBound for RbViaDefault {
+    fn least_wcet_in_interval(&self, delta: Duration) -> Service {
+        self.0.least_wcet_in_interval(delta)
+    }
+    fn steps_iter<'a>(&'a self) -> Box<dyn Iterator<Item = Duration> + 'a> {
+        self.0.steps_iter()
+    }
+    fn job_cost_iter<'a>(&'a self, delta: Duration) -> Box<dyn Iterator<Item = Service> + 'a> {
+        self.0.job_cost_iter(delta)
+    }
+}
+
 pub fn parse_supply(t: &mut Toks) -> Option<Rc<dyn SupplyBound>> {
     match t.next()? {
         "ded" => Some(Rc::new(supply::Dedicated::new())),
